@@ -568,3 +568,66 @@ package modeling
 //@   ensures nothing_else: onlyPositionReplaced(r, m)
 //@   ensures scaled: forall i int :: 0 <= i && i < len(m.v3Data["Position"]) ==> r.v3Data["Position"][i] == m.v3Data["Position"][i].MultByVector(amount)
 
+
+// ---- Append ------------------------------------------------------------------------------------------
+// appendData: for every key of a or b a FRESH array of length aLen+bLen: a's values (or nilVal), then b's (or nilVal).
+//@ func appendData
+//@   props C01 C02 C03
+//@   callback nilVal: pure
+//@   requires lens_a: forall k string :: has(a, k) ==> len(a[k]) == aLen
+//@   requires lens_b: forall k string :: has(b, k) ==> len(b[k]) == bLen
+//@   requires non_negative: aLen >= 0 && bLen >= 0
+//@   returns r
+//@   ensures [C01,C02,C03] fresh_map: fresh(r) && r != nil
+//@   ensures keys: forall k string :: has(r, k) <==> has(a, k) || has(b, k)
+//@   ensures [C01,C02,C03] fresh_arrays: forall k string :: has(r, k) ==> fresh(r[k]) && len(r[k]) == aLen + bLen
+//@   loop 1:
+//@     invariant [C01,C02,C03] map: fresh(finalData) && finalData != nil
+//@     invariant [C01,C02,C03] keys: forall k string :: has(finalData, k) <==> seen(k)
+//@     invariant [C01,C02,C03] arrays: forall k string :: has(finalData, k) ==> fresh(finalData[k]) && allocated(finalData[k]) && len(finalData[k]) == aLen + (has(b, k) ? 0 : bLen)
+//@   loop 2:
+//@     invariant [C01,C02,C03] map: fresh(finalData) && finalData != nil && has(finalData, atr) && has(a, atr) && !has(b, atr) && 0 <= i && i <= bLen
+//@     invariant [C01,C02,C03] keys: forall k string :: has(finalData, k) <==> (seen(k) || k == atr)
+//@     invariant [C01,C02,C03] arrays: forall k string :: has(finalData, k) ==> fresh(finalData[k]) && allocated(finalData[k]) && len(finalData[k]) == ((k == atr) ? aLen + i : aLen + (has(b, k) ? 0 : bLen))
+//@   loop 3:
+//@     invariant [C01,C02,C03] map: fresh(finalData) && finalData != nil
+//@     invariant [C01,C02,C03] keys: forall k string :: has(finalData, k) <==> has(a, k) || seen(k)
+//@     invariant [C01,C02,C03] arrays: forall k string :: has(finalData, k) ==> fresh(finalData[k]) && allocated(finalData[k]) && len(finalData[k]) == aLen + ((has(b, k) && !seen(k)) ? 0 : bLen)
+//@   loop 4:
+//@     invariant [C01,C02,C03] map: fresh(finalData) && finalData != nil && has(b, atr) && !has(a, atr) && 0 <= i && i <= aLen
+//@     invariant [C01,C02,C03] keys: forall k string :: has(finalData, k) <==> has(a, k) || (seen(k) && (k != atr || i > 0))
+//@     invariant [C01,C02,C03] arrays: forall k string :: has(finalData, k) ==> fresh(finalData[k]) && allocated(finalData[k]) &&
+//@                       len(finalData[k]) == ((k == atr) ? i : aLen + ((has(b, k) && !seen(k)) ? 0 : bLen))
+
+// attrLenIs(m, n): n is the common attribute length of m (0 without attributes)
+//@ spec attrLenIs(m Mesh, n int) bool = (forall k string :: has(m.v1Data, k) ==> n == len(m.v1Data[k])) && (forall k string :: has(m.v2Data, k) ==> n == len(m.v2Data[k])) &&
+//@      (forall k string :: has(m.v3Data, k) ==> n == len(m.v3Data[k])) && (forall k string :: has(m.v4Data, k) ==> n == len(m.v4Data[k])) && (noAttrs(m) ==> n == 0) && n >= 0
+
+//@ func Mesh.Append$1 pure
+//@ func Mesh.Append$2 pure
+//@ func Mesh.Append$3 pure
+//@ func Mesh.Append$4 pure
+
+//@ func Mesh.Append
+//@   props C01 C02 C03
+//@   requires sameLen(m) && sameLen(other)
+//@   returns r
+//@   ensures topology: r.topology == m.topology && m.topology == other.topology
+//@   ensures [C01,C03] fresh_result: fresh(r.indices) && fresh(r.materials) && fresh(r.v1Data) && fresh(r.v2Data) && fresh(r.v3Data) && fresh(r.v4Data)
+//@   ensures [C01,C03] fresh_arrays: (forall k string :: has(r.v1Data, k) ==> fresh(r.v1Data[k])) && (forall k string :: has(r.v2Data, k) ==> fresh(r.v2Data[k])) &&
+//@                         (forall k string :: has(r.v3Data, k) ==> fresh(r.v3Data[k])) && (forall k string :: has(r.v4Data, k) ==> fresh(r.v4Data[k]))
+//@   ensures attribute_names: (forall k string :: has(r.v1Data, k) <==> has(m.v1Data, k) || has(other.v1Data, k)) && (forall k string :: has(r.v2Data, k) <==> has(m.v2Data, k) || has(other.v2Data, k)) &&
+//@                            (forall k string :: has(r.v3Data, k) <==> has(m.v3Data, k) || has(other.v3Data, k)) && (forall k string :: has(r.v4Data, k) <==> has(m.v4Data, k) || has(other.v4Data, k))
+//@   ensures attribute_lengths: forall a int, b int :: attrLenIs(m, a) && attrLenIs(other, b) ==>
+//@       (forall k string :: has(r.v1Data, k) ==> len(r.v1Data[k]) == a + b) && (forall k string :: has(r.v2Data, k) ==> len(r.v2Data[k]) == a + b) &&
+//@       (forall k string :: has(r.v3Data, k) ==> len(r.v3Data[k]) == a + b) && (forall k string :: has(r.v4Data, k) ==> len(r.v4Data[k]) == a + b)
+//@   ensures index_count: len(r.indices) == len(m.indices) + len(other.indices)
+//@   ensures material_count: len(r.materials) == len(m.materials) + len(other.materials)
+//@   ensures first_indices_kept: forall i int :: 0 <= i && i < len(m.indices) ==> r.indices[i] == m.indices[i]
+//@   ensures second_indices_shifted: forall a int :: attrLenIs(m, a) ==> forall i int :: 0 <= i && i < len(other.indices) ==> r.indices[len(m.indices) + i] == other.indices[i] + a
+//@   ensures [C02] well_formed: wf(m) && wf(other) ==> wf(r)
+//@   loop 1:
+//@     invariant bounds: len(m.indices) <= i && i <= len(finalTris) && len(finalTris) == len(m.indices) + len(other.indices) && fresh(finalTris) && attrLenIs(m, mAtrLength)
+//@     invariant first: forall j int :: 0 <= j && j < len(m.indices) ==> finalTris[j] == m.indices[j]
+//@     invariant shifted: forall j int :: len(m.indices) <= j && j < i ==> finalTris[j] == other.indices[j - len(m.indices)] + mAtrLength
+//@     invariant rest: forall j int :: i <= j && j < len(finalTris) ==> finalTris[j] == other.indices[j - len(m.indices)]
